@@ -236,16 +236,6 @@ func (c *c02Case) open() error {
 
 func hex32(a [32]byte) string { return hx.Hex(a[:]) }
 
-// staleTok: the BlRoot a pooled tx holder happened to contain. performPrecommit assigns the field only when
-// BlTxID > 0, so for BlTxID = 0 the stored BlRoot is whatever the holder held before (known finding
-// C02:history:bltxid0-nonzero-blroot); it is an input of the model, observed on the stored header.
-func staleTok(h *store.TxHeader) string {
-	if h != nil && h.BlTxID == 0 {
-		return hex32(h.BlRoot)
-	}
-	return hex32([32]byte{})
-}
-
 func c02MinI(a, b int) int {
 	if a < b {
 		return a
@@ -569,9 +559,7 @@ func (c *c02Case) opOwn() {
 	{
 		var out string
 		ts := int64(0)
-		var stHdr *store.TxHeader
 		if res.err == nil {
-			stHdr = res.hdr
 			a := res.hdr.Alh()
 			out = fmt.Sprintf("tx %d %s", res.hdr.ID, hex32(a))
 			ts = res.hdr.Ts
@@ -593,7 +581,6 @@ func (c *c02Case) opOwn() {
 				// precommitted although the embedded mayCommit failed: the model needs the timestamp
 				if h, e := c.st.ReadTxHeader(preBefore+1, true, false); e == nil {
 					ts = h.Ts
-					stHdr = h
 				}
 			}
 		}
@@ -601,7 +588,7 @@ func (c *c02Case) opOwn() {
 		if res.err == nil && os.Getenv("VERIF_C02_CASE") != "" {
 			c.log("    hdr %s", hdrTokRef(toRefHdr(res.hdr)))
 		}
-		c.corr(fmt.Sprintf("own %d %s %s %d %d %s", ts, hx.Hex(mdb), entriesTok(es), b2i(hasPre), b2i(preOk), staleTok(stHdr)), out)
+		c.corr(fmt.Sprintf("own %d %s %s %d %d", ts, hx.Hex(mdb), entriesTok(es), b2i(hasPre), b2i(preOk)), out)
 		c.r.Eval("own|"+kind+"|"+strings.SplitN(out, " ", 2)[0]+"|"+c.cfg.label(), true)
 		c.after("own")
 		return
@@ -620,7 +607,7 @@ pendingTx:
 		a := h.Alh()
 		out := fmt.Sprintf("tx %d %s", id, hex32(a))
 		c.log("own %s n=%d -> %s (pending)", kind, n, out)
-		c.corr(fmt.Sprintf("own %d %s %s %d %d %s", h.Ts, hx.Hex(mdb), entriesTok(es), b2i(hasPre), b2i(preOk), staleTok(h)), out)
+		c.corr(fmt.Sprintf("own %d %s %s %d %d", h.Ts, hx.Hex(mdb), entriesTok(es), b2i(hasPre), b2i(preOk)), out)
 		c.r.Count("op.own.pending")
 		c.r.Eval("own-pending|"+kind+"|"+c.cfg.label(), true)
 		c.after("own-pending")
@@ -784,7 +771,7 @@ func (c *c02Case) replicatedLine(kind string, rh refHdr, es []c02Entry, skip boo
 	if err != nil && os.Getenv("VERIF_C02_CASE") != "" {
 		c.log("    error text: %v", err)
 	}
-	c.corr(fmt.Sprintf("rep %s %s %d %s", hdrTokRef(rh), entriesTok(es), b2i(skip), staleTok(hdr)), out)
+	c.corr(fmt.Sprintf("rep %s %s %d", hdrTokRef(rh), entriesTok(es), b2i(skip)), out)
 	c.r.Eval("rep|"+kind+"|"+strings.SplitN(out, " ", 2)[0]+"|"+c.cfg.label(), true)
 }
 
@@ -1395,7 +1382,7 @@ func (c *c02Case) runConcurrent(writers, perWriter int) {
 	c.corr(fmt.Sprintf("new %s %d", c.cfg.tok(), 0), "ok")
 	for _, a := range acks {
 		alh := a.hdr.Alh()
-		c.corr(fmt.Sprintf("own %d - %s 0 1 %s", a.hdr.Ts, entriesTok(a.es), staleTok(a.hdr)), fmt.Sprintf("tx %d %s", a.hdr.ID, hex32(alh)))
+		c.corr(fmt.Sprintf("own %d - %s 0 1", a.hdr.Ts, entriesTok(a.es)), fmt.Sprintf("tx %d %s", a.hdr.ID, hex32(alh)))
 		if c.cfg.synced {
 			c.corr("sync", "ok")
 		}
